@@ -31,8 +31,18 @@ pub fn create(array: InstructionWithStr) -> Result<Instruction, Error> {
     .into())
 }
 
-pub fn exec(var: Variable) -> ExecResult {
-    let return_type = var.as_type();
+pub fn exec(var: Variable, static_type: &Type) -> ExecResult {
+    // an iterator over `!` (`[]~`) matches every branch below: its sum is the unit of the element
+    // type the checker saw, not always the int one
+    let return_type = match var.as_type() {
+        run_type if run_type.iter_element() == Some(Type::Never) => match static_type.iter_element() {
+            Some(element) if element != Type::Never && !Type::Int.matches(&element) => {
+                static_type.clone()
+            }
+            _ => run_type,
+        },
+        run_type => run_type,
+    };
     if return_type.matches(&var_type!(() -> (bool, int))) {
         Ok(Variable::from(INT_SUM)
             .as_function()
